@@ -82,6 +82,7 @@ pub fn gen_stream(name: &str, seed: u64, n: usize, tier: &str) -> Vec<String> {
                 if w.len() == 8 && w[2] == "chia" && w[3] == "0" && w[5] == "-" { Some(format!("REF f{} {} {} {}", w[1], w[4], w[6], w[7])) } else { None }
             })
             .collect(),
+        "run_softfork_args" => progs::generate_run_softfork_args(&mut rng, n, tier),
         "op_limits" => progs::generate_op_limits(&mut rng, n, tier),
         "run_default" => progs::generate_run(&mut rng, n, tier, &["chia"], "default"),
         "op" => progs::generate_op(&mut rng, n, tier, None),
